@@ -241,7 +241,7 @@ def i_SBIW(i, fmap):
 
 @__pc
 def i_COM(i, fmap):
-    dst, src = i.operands
+    dst = i.operands[0]
     a = cst(0xFF, 8)
     b = fmap(dst)
     x = a - b
